@@ -7,6 +7,7 @@
 #pragma once
 
 #include <pika/config.hpp>
+#include <pika/config/verif_hooks.hpp>
 
 #if defined(PIKA_HAVE_STDEXEC)
 # include <pika/execution_base/stdexec_forward.hpp>
@@ -295,6 +296,7 @@ namespace pika::ensure_started_detail {
                 os.reset();
 
                 predecessor_done = true;
+                PIKA_VERIF_POINT(::pika::verif::ss_done, this, 1, 0);
 
                 {
                     // We require taking the lock here to synchronize with
@@ -346,6 +348,7 @@ namespace pika::ensure_started_detail {
 
                 if (predecessor_done)
                 {
+                    PIKA_VERIF_POINT(::pika::verif::ss_add, this, 1, 1);
                     // If we read predecessor_done here it means that one of
                     // set_error/set_stopped/set_value has been called and
                     // values/errors have been stored into the shared state.
@@ -359,10 +362,12 @@ namespace pika::ensure_started_detail {
                 {
                     // If predecessor_done is false, we have to take the
                     // lock to potentially store the continuation.
+                    PIKA_VERIF_POINT(::pika::verif::ss_add, this, 1, 0);
                     std::unique_lock<mutex_type> l{mtx};
 
                     if (predecessor_done)
                     {
+                        PIKA_VERIF_POINT(::pika::verif::ss_add, this, 1, 2);
                         // By the time the lock has been taken,
                         // predecessor_done might already be true and we can
                         // release the lock early and call the continuation
@@ -377,6 +382,7 @@ namespace pika::ensure_started_detail {
                         // continuation. This has to be done while holding
                         // the lock since predecessor signalling completion
                         // may otherwise not see the continuation.
+                        PIKA_VERIF_POINT(::pika::verif::ss_add, this, 1, 3);
                         continuation.emplace([this, &receiver]() mutable {
                             pika::detail::visit(
                                 stopped_error_value_visitor<Receiver>{receiver}, std::move(v));
